@@ -77,7 +77,25 @@ impl From<bool> for PropertyValue {
     }
 }
 
+/// Deepest nesting of lists and maps a stored property value may have: a list or map may
+/// sit inside at most `MAX_PROPERTY_NESTING - 1` others. Encoding, decoding, cloning and
+/// dropping a value all recurse once per level, so the depth has to be bounded where values
+/// are accepted and where bytes are decoded.
+pub const MAX_PROPERTY_NESTING: usize = 128;
+
 impl PropertyValue {
+    /// True if lists/maps are nested more than `limit` levels deep (a scalar has no level,
+    /// `[1]` has one, `[[1]]` two). Recurses at most `limit + 1` levels itself.
+    pub fn exceeds_nesting(&self, limit: usize) -> bool {
+        match self {
+            PropertyValue::List(l) => limit == 0 || l.iter().any(|v| v.exceeds_nesting(limit - 1)),
+            PropertyValue::Map(m) => {
+                limit == 0 || m.values().any(|v| v.exceeds_nesting(limit - 1))
+            }
+            _ => false,
+        }
+    }
+
     /// Encode property value to bytes for WAL/property-store persistence.
     pub fn encode(&self) -> Vec<u8> {
         match self {
@@ -144,11 +162,12 @@ impl PropertyValue {
 
     /// Decode property value from bytes.
     pub fn decode(bytes: &[u8]) -> Result<Self, DecodeError> {
-        let (value, _) = Self::decode_recursive(bytes)?;
+        let (value, _) = Self::decode_recursive(bytes, 0)?;
         Ok(value)
     }
 
-    fn decode_recursive(bytes: &[u8]) -> Result<(Self, usize), DecodeError> {
+    /// `depth`: number of lists/maps this value sits in.
+    fn decode_recursive(bytes: &[u8], depth: usize) -> Result<(Self, usize), DecodeError> {
         if bytes.is_empty() {
             return Err(DecodeError::Empty);
         }
@@ -210,6 +229,9 @@ impl PropertyValue {
                 if bytes.len() < 5 {
                     return Err(DecodeError::InvalidLength);
                 }
+                if depth >= MAX_PROPERTY_NESTING {
+                    return Err(DecodeError::TooDeep);
+                }
                 let count =
                     u32::from_le_bytes(bytes[1..5].try_into().expect("slice length checked"))
                         as usize;
@@ -218,7 +240,7 @@ impl PropertyValue {
                 // let the vector grow with the items that are actually decoded.
                 let mut items = Vec::new();
                 for _ in 0..count {
-                    let (item, consumed) = Self::decode_recursive(&bytes[pos..])?;
+                    let (item, consumed) = Self::decode_recursive(&bytes[pos..], depth + 1)?;
                     items.push(item);
                     pos += consumed;
                 }
@@ -227,6 +249,9 @@ impl PropertyValue {
             8 => {
                 if bytes.len() < 5 {
                     return Err(DecodeError::InvalidLength);
+                }
+                if depth >= MAX_PROPERTY_NESTING {
+                    return Err(DecodeError::TooDeep);
                 }
                 let count =
                     u32::from_le_bytes(bytes[1..5].try_into().expect("slice length checked"))
@@ -249,7 +274,7 @@ impl PropertyValue {
                     let key = String::from_utf8(bytes[pos..pos + k_len].to_vec())
                         .map_err(|_| DecodeError::InvalidUtf8)?;
                     pos += k_len;
-                    let (val, consumed) = Self::decode_recursive(&bytes[pos..])?;
+                    let (val, consumed) = Self::decode_recursive(&bytes[pos..], depth + 1)?;
                     map.insert(key, val);
                     pos += consumed;
                 }
@@ -274,6 +299,8 @@ pub enum DecodeError {
     InvalidLength,
     InvalidUtf8,
     UnknownType(u8),
+    /// Lists/maps nested deeper than `MAX_PROPERTY_NESTING`.
+    TooDeep,
 }
 
 impl std::fmt::Display for DecodeError {
@@ -283,6 +310,7 @@ impl std::fmt::Display for DecodeError {
             DecodeError::InvalidLength => write!(f, "invalid property value length"),
             DecodeError::InvalidUtf8 => write!(f, "invalid UTF-8 in string property"),
             DecodeError::UnknownType(ty) => write!(f, "unknown property value type: {ty}"),
+            DecodeError::TooDeep => write!(f, "property value nested too deeply"),
         }
     }
 }
